@@ -1,5 +1,5 @@
 """C11: compilation is a pure function of sources and options (spec/Purity.tla, PurityMC, PurityTrace)."""
-import sys, os, json, random, subprocess, itertools
+import re, sys, os, json, random, subprocess, itertools
 sys.path.insert(0, os.path.join(os.path.dirname(os.path.abspath(__file__)), "..", "lib"))
 from vlib import *
 import corpus, c16
@@ -45,6 +45,72 @@ PROJECT = [
 ]
 HISTORY = ["from t | select {a} | filter zz > 1", "from t | take", "from t | sort {b, -a, k} | sort {-a, b, k} | select {k, z = b} | select {k}",
            "from t | join (from u | select {k, c + 1}) (==k)", "from t | select {a, b}"]
+
+def forced_schedules(rep, d, tier):
+    """spec -> code: behaviours of the interleaving model (spec/PuritySched.tla = PurityMC + the steps taken), drawn by TLC's
+    simulator, are imposed on the real threads through the gates of the hooks (pv sched: a thread passes a gate only when the
+    schedule says so), one fresh process per schedule so that the once-cell is initialised under the schedule too; the
+    critical sections recorded under the lock and the results are validated by PurityTrace like those of the free runs."""
+    import subprocess
+    n = 150 if tier == "quick" else 1500
+    cmd = ["java", "-XX:+UseParallelGC", "-cp", JAR, "tlc2.TLC", "-workers", "1", "-simulate", f"num={n}", "-depth", "90", "-seed", str(seed()),
+           "-metadir", os.path.join(WORK, "tlc", f"psched-{os.getpid()}"), "-cleanup", "-noGenerateSpecTE", "-config", "PuritySched.cfg", "PuritySched.tla"]
+    r = subprocess.run(cmd, cwd=SPEC, stdout=subprocess.PIPE, stderr=subprocess.STDOUT, text=True, timeout=1800)
+    subprocess.run(["rm", "-rf", os.path.join(WORK, "tlc", f"psched-{os.getpid()}")])
+    import vlib
+    scheds = [json.loads(parse_tla_tuple(t)[1]) for t in vlib._tuple_texts(r.stdout, "SCHED")]
+    if len(scheds) < n // 2 or "is violated" in r.stdout:
+        raise ToolError("PuritySched: the simulator did not produce the schedules: " + r.stdout[-800:])
+    inputs = [{"id": "f1", "src": "from t | filter a > 1 | select {a, b}", "dialect": "sqlite"},
+              {"id": "f2", "src": "from t | sort a | take 3 | derive {x = a // 2}", "dialect": "postgres"},
+              {"id": "f3", "src": "from t | select {nope}", "dialect": None},
+              {"id": "f4", "src": "from t | group a (aggregate {n = count this}) | sort {-n}", "dialect": "mssql"}]
+    def one(k):
+        sp = os.path.join(d, f"sched{k}.json"); op = os.path.join(d, f"sched{k}.ndjson")
+        json.dump({"steps": scheds[k], "inputs": inputs, "nc": 2, "ni": 2}, open(sp, "w"))
+        rr = pv(["sched", sp, op, f"forced:{k}"], timeout=120)
+        m = re.search(r"(\d+) steps, (\d+) realised, (\d+) skipped, (\d+) blocked", rr.stderr)
+        return op, [int(x) for x in m.groups()] if m else [0, 0, 0, 0]
+    from concurrent.futures import ThreadPoolExecutor
+    with ThreadPoolExecutor(max_workers=4) as ex:
+        res = list(ex.map(one, range(len(scheds))))
+    evs = []
+    for op, _ in res:
+        evs += read_ndjson(op)
+    evs.append({"event": "End"})
+    norm = []
+    for e in evs:
+        base = {"event": e["event"], "seq": 0, "thread": 0, "action": "", "present": False, "suppress": 0, "entries": 0,
+                "input": "", "out": 0, "kind": "", "scenario": ""}
+        base.update({k: v for k, v in e.items() if k in base})
+        norm.append(base)
+    tp = os.path.join(d, "trace-forced.ndjson"); write_ndjson(tp, norm)
+    tout, tinfo = tlc("PurityTrace", "PurityTrace.cfg", env={"TRACE": tp}, workers=1, deque=True, xmx="8g")
+    tr = tuples(tout, "TRACE")
+    if not tinfo["no_error"] or not tr or tr[0][1] != tr[0][2]:
+        raise ToolError("PurityTrace did not consume the forced-schedule trace: " + tinfo.get("error_text", tout[-1200:])[:1500])
+    texts = {}
+    for e in evs:
+        if e.get("event") == "Result":
+            texts.setdefault(e["input"], set()).add(e.get("text", ""))
+    for rj in tuples(tout, "REJECT"):
+        if rj[1] == "sched":
+            rep.violation({"property": "C11", "kind": "schedule-forced", "action": rj[2], "seq": rj[3], "trace_line": rj[4], "trace_file": tp}, {"what": "schedule", "action": rj[2]})
+        else:
+            rep.violation({"property": "C11", "kind": "forced-" + rj[1], "input": rj[2], "scenario": rj[3], "distinct_outputs": sorted(texts.get(rj[2], []))[:3], "trace_file": tp},
+                          {"what": "nondeterministic" if rj[1] == "result" else "panic", "api": "compile", "src": next((i["src"] for i in inputs if rj[2].startswith(i["id"] + "#")), ""), "scenario": rj[3],
+                           "outputs": " || ".join(sorted(texts.get(rj[2], []))[:3])})
+    acts = {}
+    guard_across = 0          # the interleaving F8 needs: a guard released after the log it was taken under was finished
+    for e in norm:
+        if e["event"] == "Sched":
+            acts[e["action"]] = acts.get(e["action"], 0) + 1
+            if e["action"] == "SuppressRelease" and not e["present"]:
+                guard_across += 1
+    tot = [sum(x[1][j] for x in res) for j in range(4)]
+    return {"schedules": len(scheds), "steps": tot[0], "steps_realised": tot[1], "steps_not_applicable_in_the_code": tot[2], "threads_blocked": tot[3],
+            "hook_events": sum(acts.values()), "hook_actions": acts, "guards_released_after_their_log_was_finished": guard_across,
+            "states": tinfo.get("distinct", 0)}
 
 def check(tier):
     rep = Report("C11", tier)
@@ -204,6 +270,7 @@ def check(tier):
         nrej.append(len(tuples(o_, "REJECT")))
     if not all(x > nrej[0] for x in nrej[1:]):
         raise ToolError(f"C11 selftest: removed / corrupted hook events not rejected (rejections good/bad: {nrej})")
+    forced = forced_schedules(rep, d, tier)
     nsched, nres, acts = nsched_total, nres_total, acts_total
     nruns = (4 + (6 if tier == "quick" else 16) + 2) * len(chunks)
     cov = {"states": info["distinct"] + tinfo.get("distinct", 0), "transitions": info["generated"] + tinfo.get("distinct", 0),
@@ -211,7 +278,7 @@ def check(tier):
            "samples": [{"scenario": "threads+debug-log", "first_events": [e for e in norm if e["event"] == "Sched"][:6]}, {"input": SITES[0][1]}, {"project": PROJECT[0]}],
            "explanation": f"PurityMC: all {info['distinct']} states of 2 compiling threads x 2 compiles + a debugging thread over the lock-protected debug log and the std once-cell (NoPanic, Pure, OnceOnly hold; the unrepaired release is shown to violate NoPanic, so the model is not vacuous); {nruns} recorded process runs ({nsched} hook events numbered under the lock, {nres} results) validated by PurityTrace: the event sequence must be a behaviour of the log machine and every (input, API) must yield one artefact across threads, rounds, histories, fresh processes (new hash seeds), file enumeration orders and a changed PRQL_VERSION_OVERRIDE",
            "hook_events": nsched, "hook_actions": acts, "results": nres, "process_runs": nruns, "chunks": len(chunks), "inputs": len(inputs),
-           "unrepaired_model_counterexample_found": True, "selftest": {"removed_event_and_corrupted_counter_rejected": True}}
+           "forced_schedules": forced, "unrepaired_model_counterexample_found": True, "selftest": {"removed_event_and_corrupted_counter_rejected": True}}
     return rep.finish("model_checking", cov,
                       ["hash-seed independence is statistical: each run is a new process (new RandomState keys) and every HashMap created in a process gets new keys; a site with two candidates is missed by n runs with probability 2^-n",
                        "hooks: --cfg prql_verif (debug/log.rs, sql/operators.rs), events are emitted while the write lock on CURRENT_LOG is held and ordered by a counter incremented there"])
